@@ -11,6 +11,7 @@ uint16 again, or guards with `>` again, these stop compiling and the check says 
 -/
 import VaxisModel.Lemmas.Surface
 import VaxisModel.Lemmas.SurfacePaint
+import VaxisModel.Lemmas.SurfacePaintSpec
 
 namespace VaxisModel.Props.C14
 open VaxisModel.Model.Window VaxisModel.Model.Surface VaxisModel.Model.Layout
@@ -313,29 +314,32 @@ theorem cellOps_positions (w : UInt16) (buf : List Cell) (i : Nat) (hi : i < buf
   have := cellOpsFrom_positions w buf 0 i hi
   simpa [cellOps] using this
 
-mutual
-/-- The spec's view of a model surface tree. -/
-def toTree : Int → Int → Int → Surface → Spec.Surface.Tree
-  | col, row, z, .mk w h buf kids => .node col row z w.toNat h.toNat buf (kidsToTrees kids)
-def kidsToTrees : Kids → List Spec.Surface.Tree
-  | .nil => []
-  | .cons col row z s rest => toTree col row z s :: kidsToTrees rest
-end
+open VaxisModel.Lemmas.SurfacePaintSpec in
+/-- **render_paints.** Rendering a surface tree (no zero-width surface with a non-empty buffer) into
+the full-screen window of a well-formed screen leaves every screen cell showing the top layer of
+the painter's algorithm of `Spec.Surface` — each surface at its parent's origin plus its offset,
+clipped to its own rectangle and to every ancestor's below the root and to the window, children
+after their parent in z-order with ties in child order — and unchanged where no layer reaches.
+This is the reading in which the root's own rectangle does not clip its children (what the code
+does; the stricter reading is recorded as finding F114). -/
+theorem render_paints (s : Surface) (scr scr' : Screen) (hwf : scr.WF) (hd : s.divZero = false)
+    (hr : render s (Win.ofScreen scr) scr = .ok scr') (x y : Int) (hin : inScreen scr x y) :
+    scr'.get x y =
+      match Spec.Surface.topAt (Spec.Surface.layers false (toTree 0 0 0 s) 0 0
+          { x0 := 0, y0 := 0, x1 := scr.cols, y1 := scr.rows }) x y with
+      | some c => some c
+      | none => scr.get x y := by
+  rw [render_last_wins s _ scr scr' hr x y, paint_spec scr s _ 0 0 _ (tied_root scr) hd x y,
+    layers_toTree, if_neg (by simp)]
+  simp only [Int.add_zero]
+  obtain ⟨v, hv⟩ := VaxisModel.Lemmas.Window.get_some_of_inScreen scr hwf x y hin
+  cases Spec.Surface.topAt (bodyOf s 0 0 { x0 := 0, y0 := 0, x1 := scr.cols, y1 := scr.rows }) x y with
+  | none => rfl
+  | some c => simp [hv]
 
-/-- Full statement of render_paints against the painter's-algorithm spec of `Spec.Surface`, in the
-reading where the root's own rectangle does not clip (what the code does, finding F114): every
-cell of a well-formed screen shows the top layer of the spec, or is unchanged where no layer
-reaches.  Stated, not proved: it is evaluated as the oracle on every rendered case of the
-correspondence run (together with the stricter root-clipping reading). -/
-def render_paints_full : Prop :=
-  ∀ (s : Surface) (scr scr' : Screen), scr.WF → s.divZero = false →
-    render s (Win.ofScreen scr) scr = .ok scr' →
-    ∀ x y, inScreen scr x y →
-      scr'.get x y =
-        match Spec.Surface.topAt (Spec.Surface.layers false (toTree 0 0 0 s) 0 0
-            { x0 := 0, y0 := 0, x1 := scr.cols, y1 := scr.rows }) x y with
-        | some c => some c
-        | none => scr.get x y
+/-- The model's stable insertion sort by z-index is the spec's "z-order, ties in child order". -/
+theorem zorder_is_spec {α : Type} (l : List (Int × α)) : sortByZ l = Spec.Surface.orderByKey l :=
+  VaxisModel.Lemmas.SurfaceOrder.sortByZ_eq_orderByKey l
 
 /-! ### Non-vacuity -/
 
